@@ -19,12 +19,20 @@ impl ser::Error for RecErr {
 }
 
 pub fn tree<T: Serialize + ?Sized>(x: &T) -> Result<Value, RecErr> {
-    x.serialize(Rec)
+    x.serialize(Rec(false))
 }
 
-pub struct Rec;
+/// the same call tree with field names kept: a struct (or struct variant payload) becomes a map from
+/// its field names (as str) to the field values -- what formats that write structs as maps see
+pub fn tree_named<T: Serialize + ?Sized>(x: &T) -> Result<Value, RecErr> {
+    x.serialize(Rec(true))
+}
+
+#[derive(Clone, Copy)]
+pub struct Rec(pub bool);
 
 pub struct Items {
+    named: bool,
     kind: &'static str,
     variant: Option<&'static str>,
     items: Vec<Value>,
@@ -75,7 +83,7 @@ impl ser::Serializer for Rec {
     fn serialize_bytes(self, v: &[u8]) -> Result<Value, RecErr> { Ok(json!({"y": hex::encode(v)})) }
     fn serialize_none(self) -> Result<Value, RecErr> { Ok(json!({"n": 0})) }
     fn serialize_some<T: ?Sized + Serialize>(self, v: &T) -> Result<Value, RecErr> {
-        Ok(json!({"some": v.serialize(Rec)?}))
+        Ok(json!({"some": v.serialize(Rec(self.0))?}))
     }
     fn serialize_unit(self) -> Result<Value, RecErr> { Ok(json!({"unit": 0})) }
     fn serialize_unit_struct(self, _name: &'static str) -> Result<Value, RecErr> { Ok(json!({"tup": []})) }
@@ -83,33 +91,33 @@ impl ser::Serializer for Rec {
         Ok(json!({"uv": hex::encode(variant.as_bytes())}))
     }
     fn serialize_newtype_struct<T: ?Sized + Serialize>(self, _n: &'static str, v: &T) -> Result<Value, RecErr> {
-        v.serialize(Rec)
+        v.serialize(Rec(self.0))
     }
     fn serialize_newtype_variant<T: ?Sized + Serialize>(
         self, _n: &'static str, _i: u32, variant: &'static str, v: &T,
     ) -> Result<Value, RecErr> {
-        Ok(json!({"v": [hex::encode(variant.as_bytes()), v.serialize(Rec)?]}))
+        Ok(json!({"v": [hex::encode(variant.as_bytes()), v.serialize(Rec(self.0))?]}))
     }
     fn serialize_seq(self, _len: Option<usize>) -> Result<Items, RecErr> {
-        Ok(Items { kind: "seq", variant: None, items: vec![] })
+        Ok(Items { named: self.0, kind: "seq", variant: None, items: vec![] })
     }
     fn serialize_tuple(self, _len: usize) -> Result<Items, RecErr> {
-        Ok(Items { kind: "tup", variant: None, items: vec![] })
+        Ok(Items { named: self.0, kind: "tup", variant: None, items: vec![] })
     }
     fn serialize_tuple_struct(self, _n: &'static str, _len: usize) -> Result<Items, RecErr> {
-        Ok(Items { kind: "tup", variant: None, items: vec![] })
+        Ok(Items { named: self.0, kind: "tup", variant: None, items: vec![] })
     }
     fn serialize_tuple_variant(self, _n: &'static str, _i: u32, variant: &'static str, _len: usize) -> Result<Items, RecErr> {
-        Ok(Items { kind: "tup", variant: Some(variant), items: vec![] })
+        Ok(Items { named: self.0, kind: "tup", variant: Some(variant), items: vec![] })
     }
     fn serialize_map(self, _len: Option<usize>) -> Result<Items, RecErr> {
-        Ok(Items { kind: "map", variant: None, items: vec![] })
+        Ok(Items { named: self.0, kind: "map", variant: None, items: vec![] })
     }
     fn serialize_struct(self, _n: &'static str, _len: usize) -> Result<Items, RecErr> {
-        Ok(Items { kind: "tup", variant: None, items: vec![] })
+        Ok(Items { named: self.0, kind: if self.0 { "map" } else { "tup" }, variant: None, items: vec![] })
     }
     fn serialize_struct_variant(self, _n: &'static str, _i: u32, variant: &'static str, _len: usize) -> Result<Items, RecErr> {
-        Ok(Items { kind: "tup", variant: Some(variant), items: vec![] })
+        Ok(Items { named: self.0, kind: if self.0 { "map" } else { "tup" }, variant: Some(variant), items: vec![] })
     }
 }
 
@@ -117,7 +125,7 @@ impl ser::SerializeSeq for Items {
     type Ok = Value;
     type Error = RecErr;
     fn serialize_element<T: ?Sized + Serialize>(&mut self, v: &T) -> Result<(), RecErr> {
-        self.items.push(v.serialize(Rec)?);
+        self.items.push(v.serialize(Rec(self.named))?);
         Ok(())
     }
     fn end(self) -> Result<Value, RecErr> { Ok(self.finish()) }
@@ -126,7 +134,7 @@ impl ser::SerializeTuple for Items {
     type Ok = Value;
     type Error = RecErr;
     fn serialize_element<T: ?Sized + Serialize>(&mut self, v: &T) -> Result<(), RecErr> {
-        self.items.push(v.serialize(Rec)?);
+        self.items.push(v.serialize(Rec(self.named))?);
         Ok(())
     }
     fn end(self) -> Result<Value, RecErr> { Ok(self.finish()) }
@@ -135,7 +143,7 @@ impl ser::SerializeTupleStruct for Items {
     type Ok = Value;
     type Error = RecErr;
     fn serialize_field<T: ?Sized + Serialize>(&mut self, v: &T) -> Result<(), RecErr> {
-        self.items.push(v.serialize(Rec)?);
+        self.items.push(v.serialize(Rec(self.named))?);
         Ok(())
     }
     fn end(self) -> Result<Value, RecErr> { Ok(self.finish()) }
@@ -144,7 +152,7 @@ impl ser::SerializeTupleVariant for Items {
     type Ok = Value;
     type Error = RecErr;
     fn serialize_field<T: ?Sized + Serialize>(&mut self, v: &T) -> Result<(), RecErr> {
-        self.items.push(v.serialize(Rec)?);
+        self.items.push(v.serialize(Rec(self.named))?);
         Ok(())
     }
     fn end(self) -> Result<Value, RecErr> { Ok(self.finish()) }
@@ -153,11 +161,11 @@ impl ser::SerializeMap for Items {
     type Ok = Value;
     type Error = RecErr;
     fn serialize_key<T: ?Sized + Serialize>(&mut self, k: &T) -> Result<(), RecErr> {
-        self.items.push(k.serialize(Rec)?);
+        self.items.push(k.serialize(Rec(self.named))?);
         Ok(())
     }
     fn serialize_value<T: ?Sized + Serialize>(&mut self, v: &T) -> Result<(), RecErr> {
-        self.items.push(v.serialize(Rec)?);
+        self.items.push(v.serialize(Rec(self.named))?);
         Ok(())
     }
     fn end(self) -> Result<Value, RecErr> { Ok(self.finish()) }
@@ -165,8 +173,11 @@ impl ser::SerializeMap for Items {
 impl ser::SerializeStruct for Items {
     type Ok = Value;
     type Error = RecErr;
-    fn serialize_field<T: ?Sized + Serialize>(&mut self, _k: &'static str, v: &T) -> Result<(), RecErr> {
-        self.items.push(v.serialize(Rec)?);
+    fn serialize_field<T: ?Sized + Serialize>(&mut self, k: &'static str, v: &T) -> Result<(), RecErr> {
+        if self.named {
+            self.items.push(json!({"s": hex::encode(k.as_bytes())}));
+        }
+        self.items.push(v.serialize(Rec(self.named))?);
         Ok(())
     }
     fn end(self) -> Result<Value, RecErr> { Ok(self.finish()) }
@@ -174,8 +185,11 @@ impl ser::SerializeStruct for Items {
 impl ser::SerializeStructVariant for Items {
     type Ok = Value;
     type Error = RecErr;
-    fn serialize_field<T: ?Sized + Serialize>(&mut self, _k: &'static str, v: &T) -> Result<(), RecErr> {
-        self.items.push(v.serialize(Rec)?);
+    fn serialize_field<T: ?Sized + Serialize>(&mut self, k: &'static str, v: &T) -> Result<(), RecErr> {
+        if self.named {
+            self.items.push(json!({"s": hex::encode(k.as_bytes())}));
+        }
+        self.items.push(v.serialize(Rec(self.named))?);
         Ok(())
     }
     fn end(self) -> Result<Value, RecErr> { Ok(self.finish()) }
